@@ -9,6 +9,7 @@ import Usid.Driver.Anc
 import Usid.Driver.Dims
 import Usid.Driver.Reshape
 import Usid.Driver.Slice
+import Usid.Driver.MainW
 /-! Line-protocol driver over the hand-written models: one JSON request per line on stdin,
     one JSON response per line on stdout. -/
 namespace Usid.Driver
@@ -26,7 +27,8 @@ def handlers : List (String × (Json → R Json)) := [
   ("anc.build", hAncBuild), ("anc.make", hAncMake), ("anc.write", hAncWrite),
   ("dims.sort", hDimsSort), ("uv.get", hUvGet), ("uv.rebuild", hUvRebuild),
   ("rs.to_nd", hRsToNd), ("rs.wrapper", hRsWrapper), ("rs.from_nd", hRsFromNd),
-  ("slice.nd", hSliceNd), ("slice.2d", hSlice2d)
+  ("slice.nd", hSliceNd), ("slice.2d", hSlice2d),
+  ("main.write", hMainWrite)
 ]
 
 def respond (tbl : List (String × (Json → R Json))) (line : String) : String :=
